@@ -4,6 +4,7 @@ import (
 	"bytes"
 	"fmt"
 	"runtime"
+	"sort"
 	"strings"
 	"sync"
 
@@ -24,6 +25,7 @@ type produceWire struct {
 	model      map[string]*seqState      // pid/topic/part -> reference sequence state (C29)
 	unobserved map[string]bool           // pid/topic/part whose model may lag (verdicts lost with a connection)
 	cliEnds    map[string]map[int32]bool // pid/epoch/topic/part -> sequences at which a written batch ended
+	cliDesc    map[string]string
 	cliSeen    map[string]map[int32]bool
 	nreq       int
 	maxFrame   int
@@ -48,7 +50,7 @@ type wireRec struct {
 }
 
 func newProduceWire(s *Sim, st *prodState) *produceWire {
-	return &produceWire{s: s, st: st, seqs: map[string]map[int32][]string{}, pending: map[string]*sentBatch{}, model: map[string]*seqState{}, unobserved: map[string]bool{}, cliEnds: map[string]map[int32]bool{}, cliSeen: map[string]map[int32]bool{}}
+	return &produceWire{s: s, st: st, seqs: map[string]map[int32][]string{}, pending: map[string]*sentBatch{}, model: map[string]*seqState{}, unobserved: map[string]bool{}, cliEnds: map[string]map[int32]bool{}, cliSeen: map[string]map[int32]bool{}, cliDesc: map[string]string{}}
 }
 
 func (w *produceWire) onReq(r *WireReq) {
@@ -256,6 +258,7 @@ func (w *produceWire) onProcessed(r *WireResp) {
 
 func (w *produceWire) finish() {
 	s := w.s
+	w.clientSeqFinal()
 	s.Count("wire.produce_requests", int64(w.nreq))
 	s.Max("wire.max_produce_frame", int64(w.maxFrame))
 	s.Max("wire.max_batch", int64(w.maxBatch))
@@ -298,12 +301,14 @@ const seqMod = int64(1) << 31
 
 func seqAdd(seq, n int32) int32 { return int32((int64(seq) + int64(n)) % seqMod) }
 
-// clientSeq: within one (producer id, epoch, partition) every batch that is
-// new on the wire starts where an earlier batch ended, modulo 2^31 (the first
-// one starts anywhere: 0, or where the harness fast-forwarded it). "An
-// earlier batch", not "the previous one": after a definite rejection
-// (NOT_LEADER...) the client may re-form its pending records into other
-// batches, which then start where the re-formed predecessors end.
+// clientSeq: within one (producer id, epoch, partition) every batch written
+// starts where another written batch ended, modulo 2^31, except the first of
+// the chain (which starts anywhere: 0, or where the harness fast-forwarded
+// it). This is judged over the set of batches at the end of the run, not in
+// wire order: requests queued behind a failed connection attempt are written
+// when the next attempt succeeds, ahead of the re-issued request that carries
+// the batch before theirs, so a batch can reach the wire before its
+// predecessor does (the broker rejects it and the client resends in order).
 func (w *produceWire) clientSeq(k, tp string, pid int64, epoch int16, seq, n int32) {
 	s := w.s
 	if s.P.Knob("allow_cancel", 0) != 0 || pid < 0 {
@@ -316,16 +321,35 @@ func (w *produceWire) clientSeq(k, tp string, pid int64, epoch int16, seq, n int
 		seen = map[int32]bool{}
 		w.cliSeen[k] = seen
 		w.cliEnds[k] = map[int32]bool{}
-	}
-	ends := w.cliEnds[k]
-	if !seen[seq] && len(seen) > 0 && !ends[seq] {
-		s.Violf("C29/client/sequence-not-contiguous", "producer %d epoch %d %s: a new batch starts at sequence %d, where no earlier batch of this producer epoch ended (mod 2^31)", pid, epoch, tp, seq)
+		w.cliDesc[k] = fmt.Sprintf("producer %d epoch %d %s", pid, epoch, tp)
 	}
 	seen[seq] = true
 	nx := seqAdd(seq, n)
-	ends[nx] = true
+	w.cliEnds[k][nx] = true
 	if nx < seq {
 		s.Probe("client_sequence_wrapped")
+	}
+}
+
+func (w *produceWire) clientSeqFinal() {
+	w.mu.Lock()
+	defer w.mu.Unlock()
+	keys := make([]string, 0, len(w.cliSeen))
+	for k := range w.cliSeen {
+		keys = append(keys, k)
+	}
+	sort.Strings(keys)
+	for _, k := range keys {
+		var loose []int
+		for seq := range w.cliSeen[k] {
+			if !w.cliEnds[k][seq] {
+				loose = append(loose, int(seq))
+			}
+		}
+		sort.Ints(loose)
+		if len(loose) > 1 {
+			w.s.Violf("C29/client/sequence-not-contiguous", "%s: batches were written starting at sequences %v, and no written batch of this producer epoch ends at more than one of them (mod 2^31)", w.cliDesc[k], loose)
+		}
 	}
 }
 
